@@ -285,7 +285,16 @@ def enumerate_cases(cfg, seed, workers=NCPU):
     checks the invariants on those scripted behaviours."""
     r = _run_tlc_retry("MxFormula", cfg=cfg, workers=workers, timeout=3000,
                        env={"VERIF_SEED": str(seed)})
-    cases = [json.loads(tlc.tla_to_py(t)[1]) for t in tlc._match_tuples(r["out"], "MBT")]
+    cases = []
+    for line in r["out"].splitlines():          # one tuple per line: <<"MBT", "<json, escaped>">>
+        if line.startswith('<<"MBT", "') and line.endswith('">>'):
+            try:
+                cases.append(json.loads(json.loads(line[8:-2])))
+            except ValueError:
+                cases = None
+                break
+    if not cases:                               # (interleaved output: the general parser)
+        cases = [json.loads(tlc.tla_to_py(t)[1]) for t in tlc._match_tuples(r["out"], "MBT")]
     if not r.get("ok") or not cases:
         i = r["out"].find("Error:")
         raise tlc.TLCError("case enumeration failed (%s):\n%s" % (cfg, r["out"][max(0, i - 200):i + 3000]))
